@@ -48,6 +48,10 @@ pub enum Fault {
     /// 2 = connect, 4 = datagram bind, 8 = opening a file such as the certificate) fail with EMFILE while `flows` ordinary flows
     /// are attempted; then descriptors are available again
     FdExhaustion { on_client: bool, mask: u8, flows: u32 },
+    /// `n` ordinary flows to a target that accepts, reads and stays silent; each application sends its request and goes away
+    /// (closes, or resets) without waiting. The server (and the client) run under a descriptor limit of `limit` sockets: flows
+    /// that are not released when their application leaves use the limit up
+    AbandonedFlows { n: u32, limit: u32, reset: bool },
     /// QUIC cells: datagrams to the server's QUIC port - random bytes, or something shaped like a long-header Initial packet
     DgramToServer { bytes: Vec<u8>, n: u32 },
     /// many connections to the server's port at once, each sending these bytes (a partial TLS hello, a partial upgrade,
@@ -71,6 +75,7 @@ pub fn fault_name(f: &Fault) -> String {
         Fault::ResetFlow { by_app } => format!("reset-by-{}", if *by_app { "application" } else { "target" }),
         Fault::AcceptErr { on_client, .. } => format!("accept-emfile-{}", if *on_client { "client" } else { "server" }),
         Fault::FdExhaustion { on_client, .. } => format!("descriptors-exhausted-{}", if *on_client { "client" } else { "server" }),
+        Fault::AbandonedFlows { .. } => "flows-abandoned-by-their-applications-under-a-descriptor-limit".to_owned(),
         Fault::QuicBadHandshake { kind } => format!("quic-handshake-{}", ["foreign-alpn", "no-alpn", "untrusted-certificate", "abandoned"][*kind as usize % 4]),
         Fault::QuicStalledHandshake => "quic-handshake-stalled".to_owned(),
         Fault::DgramToServer { bytes, .. } => format!("{}-datagrams-to-quic-port", if bytes.first().is_some_and(|b| b & 0xc0 == 0xc0) { "initial-like" } else { "garbage" }),
@@ -142,6 +147,10 @@ pub fn gen_fault(g: &mut Gen, transport: Transport) -> Fault {
         }
         6 | 7 => Fault::BadTarget { fault: g.pick(&["refused", "unresolvable", "blackhole"]).to_string() },
         8 | 9 => Fault::ResetFlow { by_app: g.chance(50) },
+        10 if g.chance(40) => {
+            let limit = g.range(24, 60) as u32;
+            Fault::AbandonedFlows { n: limit + g.range(4, 30) as u32, limit, reset: g.chance(40) }
+        }
         10 => Fault::FdExhaustion { on_client: g.chance(60), mask: g.range(1, 15) as u8, flows: g.range(1, 3) as u32 },
         _ => Fault::AcceptErr { on_client: g.chance(50), n: g.range(1, 3) as u32 },
     }
@@ -162,6 +171,14 @@ pub fn gen_c08(seed: u64, thorough: bool) -> Plan {
     // every fault alone first (the catalogue cycles), then sequences
     let n = if (seed / 40) % 2 == 0 { 1 } else { g.range(2, if thorough { 8 } else { 5 }) } as usize;
     let mut faults: Vec<Fault> = (0..n).map(|_| gen_fault(&mut g, transport)).collect();
+    if faults.iter().any(|f| matches!(f, Fault::AbandonedFlows { .. })) {
+        // (under a descriptor limit a flood of connections that *attackers* hold open uses the limit up legitimately)
+        for f in faults.iter_mut() {
+            if matches!(f, Fault::Flood { .. }) {
+                *f = Fault::ConnectClose { to_client: false, n: 2 };
+            }
+        }
+    }
     if (seed / 7) % 3 == 1 && g.chance(50) {
         // cold start: what a process sets up on its first flow is most exposed to a resource fault - half of the cold plans
         // begin with a descriptor-exhaustion window
@@ -253,6 +270,54 @@ async fn inject(ix: usize, f: &Fault, held: &mut Held) {
             tokio::task::yield_now().await;
             held._tasks.push(spawn_scoped(run_app(120 + ix, fl, obs, true)));
             tokio::time::sleep(Duration::from_millis(500)).await;
+        }
+        Fault::AbandonedFlows { n, limit, reset } => {
+            // a target that accepts, reads and never answers or closes
+            let taddr = SocketAddr::new(IpAddr::V4(Ipv4Addr::new(127, 0, 88, 1 + (ix % 200) as u8)), 8800 + ix as u16);
+            held._tasks.push(spawn_scoped(async move {
+                let Ok(l) = octo_squirrel::verif::net::TcpListener::bind(taddr).await else { return };
+                let mut keep = Vec::new();
+                loop {
+                    let Ok((s, _)) = l.accept().await else { return };
+                    keep.push(spawn_scoped(async move {
+                        let mut s = s;
+                        let mut buf = [0u8; 4096];
+                        while let Ok(k) = tokio::io::AsyncReadExt::read(&mut s, &mut buf).await {
+                            if k == 0 {
+                                break;
+                            }
+                        }
+                        // (it has seen the end of the request; it still says nothing and keeps the connection)
+                        std::future::pending::<()>().await;
+                    }));
+                }
+            }));
+            tokio::task::yield_now().await;
+            // (the limit is headroom above what the nodes hold at this moment: listeners, connections that earlier faults keep open)
+            world::with(|w| {
+                for node in [rt::NODE_SERVER, rt::NODE_CLIENT] {
+                    let (s, l, u) = w.open_sockets(node);
+                    w.fd_limits.retain(|(n, _)| *n != node);
+                    w.fd_limits.push((node, s + l + u + *limit as usize));
+                }
+            });
+            for k in 0..*n as usize {
+                let fl = TcpFlow { hs: LocalHs::Socks5V4, target_name: None, target_ip: [127, 0, 88, 1 + (ix % 200) as u8], target_port: 8800 + ix as u16, start_ms: 0, up: vec![], down: vec![], target_waits_for: 1, ending: Ending::None, target_fault: None };
+                if let Ok(mut s) = TcpStream::connect(client_addr()).await {
+                    let ok = tokio::time::timeout(Duration::from_secs(5), local_handshake(&mut s, &fl)).await.is_ok_and(|r| r.is_ok());
+                    if ok {
+                        let _ = s.write_all(format!("abandoned-flow-{k}").as_bytes()).await;
+                        tokio::time::sleep(Duration::from_millis(30)).await;
+                    }
+                    if *reset {
+                        crate::nodes::reset_conn(s.conn_id());
+                    }
+                    drop(s);
+                }
+                tokio::time::sleep(Duration::from_millis(20)).await;
+            }
+            // the applications are gone: what the proxies still hold for them is theirs to release
+            tokio::time::sleep(Duration::from_secs(2)).await;
         }
         Fault::FdExhaustion { on_client, mask, flows } => {
             let node = if *on_client { rt::NODE_CLIENT } else { rt::NODE_SERVER };
